@@ -183,7 +183,7 @@ def _classify(unit, name, diags, vr, have_times):
             key = L.norm(clause_txt) or site_txt[:100]
         oid = "%s:%s:%s:%s" % (name, fname, kind, key)
         lost = sorted(g for g in unit.lost_ghost.get(fname, ()) if re.search(r"\b%s\b" % re.escape(g), clause_txt + " " + (site_txt if kind != "post" else "")))
-        failures.append(dict(id=oid, fn=fname, kind=kind, clause=clause_txt, site=site_txt, lost_ghost=lost,
+        failures.append(dict(id=oid, fn=fname, kind=kind, clause=clause_txt, site=site_txt, lost_ghost=lost, lost_closures=list(unit.lost_closures.get(fname, [])),
                                  site_origin=list(site_origin), clause_origin=list(clause_origin) if clause_origin else None,
                                  message=msg, rendered=d.get("rendered", ""), props=(fn["props"] if fn else [])))
     return failures, front_end, rlimit
